@@ -117,7 +117,12 @@ def analyse(prog):
         if isinstance(n, (ast.ListComp, ast.SetComp, ast.DictComp, ast.GeneratorExp)):
             for g in n.generators:
                 comp_vars.update(TW._Twin.target_names(g.target))
+    declared = set()
+    for n in _own_nodes(fdef):
+        if isinstance(n, (ast.Global, ast.Nonlocal)):
+            declared.update(n.names)
     info = {
+        "declared": declared,
         "params": params,
         "locals": bound,
         "loopvars": loopvars,
@@ -238,3 +243,84 @@ def rewrite_forms(prog, mapping):
 
 
 TEXT_REWRITES = {}
+
+
+# ------------------------------------------------------------------ running under probes
+
+
+def probe_run(prog, info, selectors, x, driver, part=None, kind="inst", raw=False, overridable=False,
+              setup=None, probe_type=None):
+    """Activate one probe per selector (in order), call f, deactivate in reverse order.
+
+    Returns (obs, streams) where streams[i] is the list of frozen events of probe i, or
+    (("activation-failed", exc type, message), None)."""
+    from ptera import probing
+    from pv.core import world
+
+    w = get_world(prog, info, kind)
+    fresh(w, info)
+    streams = [[] for _ in selectors]
+    probes = []
+
+    def sub(i):
+        def on(ev):
+            if raw:
+                streams[i].append({k: (tuple(c.names), tuple(P.freeze(v, 0, True) for v in c.values)) for k, c in ev.items()})
+            else:
+                streams[i].append({k: P.freeze(v, 0, True) for k, v in ev.items()})
+        return on
+
+    try:
+        for i, s in enumerate(selectors):
+            p = probing(s, env={"f": w.f, **w.ns}, raw=raw, overridable=overridable, probe_type=probe_type)
+            p.subscribe(sub(i))
+            if setup:
+                setup(i, p)
+            p.__enter__()
+            probes.append(p)
+    except BaseException as e:
+        for p in reversed(probes):
+            try:
+                p.__exit__(None, None, None)
+            except BaseException:
+                pass
+        discard_world(prog, kind)
+        world.reset_context()
+        return ("activation-failed", type(e).__name__, str(e)[:300]), None
+    try:
+        obs = P.run(w, w.f, x, driver, prog.flags)
+    finally:
+        for p in reversed(probes):
+            try:
+                p.__exit__(None, None, None)
+            except BaseException:
+                pass
+    if world.clean_state_problems(w.f, w.orig_code):
+        if part is not None:
+            part["counters"]["world-rebuilt-unclean"] += 1
+        discard_world(prog, kind)
+        world.reset_context()
+    return obs, streams
+
+
+def twin_run(prog, info, x, driver, subst=None):
+    """Run the reference twin; returns (obs, trace)."""
+    w = get_world(prog, info, "twin")
+    fresh(w, info)
+    if subst:
+        w.ns["SUBST"].update(subst)
+    obs = P.run(w, w.f, x, driver, prog.flags)
+    trace = list(w.ns["TRACE"])
+    w.ns["SUBST"].clear()
+    return obs, trace
+
+
+def ref_run(prog, info, x, driver):
+    w = get_world(prog, info, "ref")
+    fresh(w, info)
+    return P.run(w, w.f, x, driver, prog.flags)
+
+
+def strip_twin_locals(obs):
+    """The twin has two helper locals of its own; SNAP only reports LOCALNAMES so nothing to do."""
+    return obs
